@@ -214,7 +214,7 @@ CHECKS["C15"] = {
     "parts": [
         {"part": "sigma", "crate": "vkip", "bin": "c15_sigma", "budget_quick": 14, "budget_thorough": 600},
         {"part": "limits", "crate": "vkip", "bin": "c15_limits", "budget_quick": 8, "budget_thorough": 120},
-        {"part": "grammar", "crate": "vkip", "bin": "c15_grammar", "budget_quick": 20, "budget_thorough": 900},
+        {"part": "grammar", "crate": "vkip", "bin": "c15_grammar", "budget_quick": 30, "budget_thorough": 900},
     ],
 }
 
